@@ -588,6 +588,19 @@ func (w *world) producer(pi int) {
 				simrt.Yield()
 			}
 		}
+		for _, ps := range p.Pauses {
+			if ps[0] != i {
+				continue
+			}
+			if ps[1] > 0 {
+				w.faults.Add("producer_pause_simulated_time", 1)
+				simrt.Sleep(time.Duration(ps[1]) * time.Millisecond)
+			} else if ts := w.sim.PendingTimes(); len(ts) > 0 {
+				at := ts[int(simrt.Mix(w.sc.RunSeed, 0x7a1, uint64(pi), uint64(i))%uint64(len(ts)))]
+				w.faults.Add("producer_submission_aligned_with_pending_timer", 1)
+				simrt.Sleep(time.Duration(at - w.sim.NowNS()))
+			}
+		}
 		if w.activeProducers > 1 {
 			w.prodOverlap = true
 		}
